@@ -616,6 +616,14 @@ fn run_history(i: u64, cfg: Cfg, rng: rand_chacha::ChaCha20Rng, r: &mut Reporter
                 if wd.rng.gen_bool(0.5) {
                     wd.put_coin();
                 }
+                // the user marks some transactions as trusted (or withdraws the mark)
+                if wd.cfg.trust_marks {
+                    for _ in 0..wd.rng.gen_range(1..4) {
+                        if wd.set_trust() {
+                            r.count("trust_marks_set_or_cleared", 1);
+                        }
+                    }
+                }
             }
             96..=97 => {
                 if let Some(h) = d.held.take() {
